@@ -165,17 +165,29 @@ def ingroup(facts, cls, name, countfield, res):
     bound_ok = False
     key_ok = False
     gkey = None
+    def disjuncts(e):
+        e = strip(e)
+        if e.get("k") == "BinaryOperator" and e.get("op") == "||":
+            return disjuncts(kids(e)[0]) + disjuncts(kids(e)[1])      # left to right: the order in which a short-circuit evaluates them
+        return [e]
+    flat = []
     for g in guards:
-        c = strip(g["c"][0])
+        flat += disjuncts(g["c"][0])
+    for c in flat:
         if c.get("k") != "BinaryOperator":
             continue
         a, b = [strip(x) for x in kids(c)]
         if c["op"] == "==" and a.get("did") == pos["did"] and facts.ntext(b).endswith("." + countfield):
             bound_ok = True
+        elif not bound_ok and re.search(r"getItem\(%s\)" % re.escape(pos["name"]), facts.ntext(c)):
+            # the record at the position is read before (or without) the bound test: `a || b` evaluates a first
+            break
         if c["op"] == "!=" and (b.get("did") == query["did"] or a.get("did") == query["did"]):
             keyexpr = a if b.get("did") == query["did"] else b
             gkey = facts.ntext(keyexpr)
             # the key must be read at the returned position: a local bound to getItem(pos)
+            if re.search(r"getItem\(%s\)" % re.escape(pos["name"]), gkey):
+                key_ok = True          # read at the returned position directly, without a named local
             used = [y for y in walk(keyexpr) if y.get("k") == "DeclRefExpr" and y.get("dk") == "Var"]
             for u in used:
                 d = fm.decls.get(u["did"])
